@@ -84,7 +84,8 @@ int cp_ecdh_key(uint8_t *key, size_t key_len, const bn_t d, const ec_t q) {
 			result = RLC_ERR;
 		}
 		ec_get_x(x, p);
-		l = bn_size_bin(x);
+		/* FE2OSP: the field element has a fixed length. */
+		l = RLC_FC_BYTES;
 		bn_write_bin(_x, l, x);
 		md_kdf(key, key_len, _x, l);
 	}
